@@ -6,7 +6,8 @@ import checklib as C
 
 MODULE = "Rspirv.Props.C15"
 THEOREMS = ["Rspirv.Props.C15.orders_ok", "Rspirv.Props.C15.C15_all_eq", "Rspirv.Props.C15.C15_mut",
-            "Rspirv.Props.C15.C15_assemble", "Rspirv.Props.C15.C15_explicit"]
+            "Rspirv.Props.C15.C15_assemble", "Rspirv.Props.C15.C15_explicit",
+            "Rspirv.Props.C15Inst.C15_inst_into", "Rspirv.Props.C15Inst.C15_inst_alone"]
 SECT = ["s0", "s1", "s2", "mm", "s4", "s5", "s6", "s7", "s8", "s9", "s10"]
 
 
@@ -91,6 +92,9 @@ def witness_modules():
     out.append("trav h:0 F d:- e:- p:- B l:1 i:2 B l:3 i:4")
     out.append("trav h:1")
     out.append("trav h:0")
+    # a module whose assembly is longer than 65536 words (22000 three-word instructions in one block): instructions
+    # assembled across and beyond the 16-bit range of output offsets
+    out.append("trav h:1 s10:1 F d:2 e:3 p:- B l:4 i:" + ",".join(str(k) for k in range(5, 22005)))
     return out
 
 
@@ -99,8 +103,9 @@ def run(ctx):
         T, fails = C.translate_all(ctx)
         hok, herr = C.build_harness(ctx, bins=("impl",))
         have = C.need(ctx, "traversals")
-        failing = C.prove(ctx, MODULE, THEOREMS, extra_targets=["driver"],
-                          files=["Rspirv/Props/C15.lean", "Rspirv/Generic/Traversal.lean", "Rspirv/Model/Module.lean"]) if have else []
+        failing = C.prove(ctx, MODULE, THEOREMS, extra_targets=["Rspirv.Props.C15Inst", "driver"],
+                          files=["Rspirv/Props/C15.lean", "Rspirv/Props/C15Inst.lean", "Rspirv/Generic/Traversal.lean", "Rspirv/Model/Module.lean",
+                                 "Rspirv/Model/Assemble.lean"]) if have else []
     for n, e in failing:
         ctx.log(f"obligation failed: {n}: {e['msg'][:160]}")
     if not hok:
